@@ -7,6 +7,7 @@ import (
 	"io"
 	"runtime"
 	"runtime/debug"
+	"time"
 
 	"github.com/godaddy/asherah/go/securememory"
 	"github.com/godaddy/asherah/go/securememory/memguard"
@@ -54,6 +55,17 @@ func factory(impl string, sh *Shadow) securememory.SecretFactory {
 		return memguard.VerifNewSecretFactory(sh)
 	}
 	return protectedmemory.VerifNewSecretFactory(sh)
+}
+
+// closeWait: how long a Close may take before it counts as hung (generous until three have hung in this process: then the
+// defect is established and the rest of the cases must not take minutes)
+var closeTimeouts int
+
+func closeWait() time.Duration {
+	if closeTimeouts >= 3 {
+		return 100 * time.Millisecond
+	}
+	return 5 * time.Second
 }
 
 // runCase executes path + step on a fresh secret of the given size and returns one event per API call.
@@ -116,6 +128,17 @@ func runCase(c *Case, size, run int) []Event {
 					return nil
 				})
 				ev.Ok = err == nil
+			case "WithBytesPanic":
+				// a reader callback that panics; the caller recovers. The reader is gone afterwards like any other.
+				func() {
+					defer func() { recover() }()
+					sec.WithBytes(func(b []byte) error {
+						ev.Saw = true
+						ev.Bytes = bytes.Equal(b, orig) && sh.Kernel().Prot == "RO"
+						panic("reader callback panics")
+					})
+				}()
+				ev.Ok = false
 			case "WithBytesFunc":
 				out, err := sec.WithBytesFunc(func(b []byte) ([]byte, error) {
 					ev.Saw = true
@@ -130,7 +153,18 @@ func runCase(c *Case, size, run int) []Event {
 				ev.Bytes = n == size && bytes.Equal(buf, orig)
 				ev.Ok = (err == nil || err == io.EOF) && n == size
 			case "Close":
-				ev.Ok = sec.Close() == nil
+				// a Close that waits for a reader which is not there any more would block this driver for good
+				done := make(chan error, 1)
+				s := sec
+				go func() { done <- s.Close() }()
+				select {
+				case err := <-done:
+					ev.Ok = err == nil
+				case <-time.After(closeWait()):
+					closeTimeouts++
+					ev.Panic = "Close did not return although no reader is running"
+					sec = nil // abandoned
+				}
 			}
 		}()
 		sh.EndCall()
@@ -154,7 +188,14 @@ func runCase(c *Case, size, run int) []Event {
 	// leave nothing behind
 	if sec != nil && !sec.IsClosed() {
 		sh.BeginCall(nil)
-		sec.Close()
+		done := make(chan struct{})
+		s := sec
+		go func() { s.Close(); close(done) }()
+		select {
+		case <-done:
+		case <-time.After(closeWait()):
+			closeTimeouts++ // (reported by the trace: the page state of the last event is not that of an idle secret)
+		}
 	}
 	runtime.KeepAlive(sec) // no finalizer may close the secret behind our back while the case runs
 	if d := securememory.InUseCounter.Count() - base; d != 0 {
